@@ -1,5 +1,6 @@
 """Generic per-property runner: build, prove, run streams, decide, write evidence."""
 import json
+import re
 import os
 import sys
 import time
@@ -142,6 +143,15 @@ def run_property(pid, tier, seed, mod):
     if prc != 0:
         proof_ok = False
         broken.append("Props/%s.v does not check:\n%s" % (pid, pout[-3000:]))
+    else:
+        # axiom-freeness is a checked condition: every Print Assumptions in the property's
+        # files must answer "Closed under the global context"
+        if axioms:
+            proof_ok = False
+            broken.append("Props/%s depends on axioms: %s" % (pid, ", ".join(axioms)))
+        elif closed != nobl or nobl == 0:
+            proof_ok = False
+            broken.append("Props/%s: %d statements, %d closed under the global context" % (pid, nobl, closed))
     chk_note = None
     if tier == "thorough" and prc == 0:
         crc, cout = coqchk_props(pid)
@@ -202,11 +212,11 @@ def run_property(pid, tier, seed, mod):
         status = 1
     cov = {
         "obligations": max(nobl, 1) + len(extra.get("generated_obligations", [])),
-        "discharged": (max(nobl, 1) if prc == 0 else 0) + sum(1 for g in extra.get("generated_obligations", []) if g.get("ok")),
+        "discharged": (max(nobl, 1) if prc == 0 else 0) + (sum(1 for g in extra.get("generated_obligations", []) if g.get("ok")) if prc == 0 else 0),
         "checker_cmd": "make -j16 (coq_makefile, full .vo) ; coqc -Q theories BFS theories/Props/%s.v" % pid,
         "trusted_base": [
             "Coq 8.16.1 kernel (coqc; vm_compute used in Examples and finite sweeps; no native_compute)",
-            "axioms reported by Print Assumptions in Props/%s.v: %s (%d theorems 'Closed under the global context')" % (
+            "axioms reported by Print Assumptions for every statement of Props/%s*.v: %s (%d statements 'Closed under the global context')" % (
                 pid, ", ".join(axioms) if axioms else "none", closed),
             "extraction: ExtrOcamlBasic only (bool, option, unit, list, prod, sumbool, sumor to OCaml types); no Extract Constant; N/Z/positive/nat inductive",
             "hand-written OCaml driver (parsing/printing), Go harness (vharness), python orchestrator (generators, oracles, comparison)",
@@ -214,9 +224,9 @@ def run_property(pid, tier, seed, mod):
         ],
         "evaluations": evaluations,
         "distinct_nontrivial": nontriv,
-        "traces_validated_against_impl": evaluations if model_ok else 0,
+        "traces_validated_against_impl": (sum(r["n"] for r in stream_results if r.get("model_compared", True)) if model_ok else 0),
         "rule": "; ".join("%s: %s" % (r["name"], r["desc"]) for r in stream_results),
-        "streams": [{k: r[k] for k in ("name", "n", "nontrivial", "exhaustive", "in_coq_replayed", "unaligned_runs", "distribution") if k in r} |
+        "streams": [{k: r[k] for k in ("name", "n", "nontrivial", "exhaustive", "in_coq_replayed", "unaligned_runs", "model_compared", "distribution") if k in r} |
                     {"mismatches": len(r["mismatch"]) + r.get("mismatch_more", 0),
                      "oracle_failures": len(r["oracle"]) + r.get("oracle_more", 0)} for r in stream_results],
         "samples": [s for r in stream_results for s in r.get("samples", [])][:12],
